@@ -221,6 +221,14 @@ def run_shard(spec, ctx):
             section_pair(ctx, 'gff', carts.random_bytes(rng, 256))
             section_pair(ctx, 'map', carts.random_bytes(rng, 4096))
         section_pair(ctx, 'map', bytes(range(256)) * 16)
+        for _ in range(spec['count']):
+            d = carts.defaultish_regions(rng)
+            section_pair(ctx, 'sfx', d['sfx'])
+            section_pair(ctx, 'music', d['music'])
+            ctx.feature('defaultish_sections')
+        # the "unused pattern" header at every pattern index, and PICO-8's other default (pattern 0: duration 1)
+        for hdr in ((0, 16, 0, 0), (0, 1, 0, 0)):
+            section_pair(ctx, 'sfx', (bytes(64) + bytes(hdr)) * 64)
     elif kind == 'testdata':
         check_testdata(ctx)
     elif kind == 'whole_p8':
